@@ -51,7 +51,7 @@ fn make_items<C: Suite>(ctx: &Ctx, n: usize, rng: &mut TraceRng) -> Vec<It<C>> {
                 // a FROST group signature
                 let signers = &g.ids[(i / 3) % 2..(i / 3) % 2 + 2];
                 if let Ok(sess) = sign_session(g, signers, &msg, rng) {
-                    if let Ok(sig) = frost_core::aggregate(&sess.pkg, &sess.shares, &g.pkp) {
+                    if let Ok(sig) = C::api_aggregate(&sess.pkg, &sess.shares, &g.pkp) {
                         out.push(It { vk: *g.pkp.verifying_key(), sig, msg, valid: true, tag: format!("frost/P{}", parity_tag::<C>(&g.pkp.verifying_key().to_element())) });
                         continue;
                     }
